@@ -101,6 +101,27 @@ def cliBound : List String :=
 theorem options_covered :
     Verif.Gen.CliFlags.optionFields.all (fun f => libraryOnly.contains f || cliBound.contains f) = true := by decide
 
+/-- the minifier values of `run()` in cmd/minify/main.go (regenerated): the six option structs the flags are bound to,
+    and the three template flavours (ASP/EJS, PHP, Go/mustache/handlebars templates), each of which is defined as a **copy
+    of `htmlMinifier`** with nothing but `TemplateDelims` assigned afterwards — so every `--html-*` flag reaches every
+    HTML-derived media type; and the media types each value is registered for.  A template flavour built from a fresh
+    `html.Minifier{…}` (flags silently ignored for .php/.asp/.ejs/.tmpl/… inputs) changes this list. -/
+theorem cli_registry_ok :
+    Verif.Gen.CliFlags.registry =
+      ["def aspMinifier := htmlMinifier", "def aspMinifier.TemplateDelims = [2]string{\"<%\", \"%>\"}",
+       "def cssMinifier := css.Minifier{}", "def htmlMinifier := html.Minifier{}", "def jsMinifier := js.Minifier{}",
+       "def jsonMinifier := json.Minifier{}", "def phpMinifier := htmlMinifier",
+       "def phpMinifier.TemplateDelims = [2]string{\"<?\", \"?>\"}", "def svgMinifier := svg.Minifier{}",
+       "def tmplMinifier := htmlMinifier", "def tmplMinifier.TemplateDelims = [2]string{\"{{\", \"}}\"}",
+       "def xmlMinifier := xml.Minifier{}", "reg \"application/x-httpd-php\" -> &phpMinifier",
+       "reg \"image/svg+xml\" -> &svgMinifier", "reg \"text/asp\" -> &aspMinifier",
+       "reg \"text/css\" -> &cssMinifier", "reg \"text/html\" -> &htmlMinifier",
+       "reg \"text/x-ejs-template\" -> &aspMinifier", "reg \"text/x-go-template\" -> &tmplMinifier",
+       "reg \"text/x-handlebars-template\" -> &tmplMinifier", "reg \"text/x-mustache-template\" -> &tmplMinifier",
+       "reg regexp.MustCompile(\"[/+]json$\") -> &jsonMinifier",
+       "reg regexp.MustCompile(\"[/+]xml$\") -> &xmlMinifier",
+       "reg regexp.MustCompile(\"^(application|text)/(x-)?(java|ecma|j|live)script(1\\\\.[0-5])?$|^module$\") -> &jsMinifier"] := by decide
+
 /-! ## where the options are consulted (regenerated) -/
 
 /-- every read or write of an option field in the six minifier packages, with its context (regenerated from the
